@@ -79,7 +79,7 @@ Ltac core_break :=
          end; cbn [snd]; try reflexivity.
 
 Section P.
-  Variable avc_parse : str -> option (N * N * (N * N * N)).
+  Variable avc_parse : str -> option avc_info.
   Variable hevc_parse : str -> option (N * N * list N).
 
   Lemma set_desc_core t d : core (snd (set_desc avc_parse hevc_parse t d)) = core t.
